@@ -64,7 +64,7 @@ struct JSON {
                 // The stream is scratch space for unescaped strings: what an earlier, rejected text left in it is not part of this one.
                 stream.Clear();
                 StringUtils::TrimLeft(content, offset, length);
-                ValueT value = parseValue(stream, content, offset, length);
+                ValueT value = parseValue(stream, content, offset, length, 0U);
                 StringUtils::TrimLeft(content, offset, length);
 
                 if (offset == length) {
@@ -78,7 +78,11 @@ struct JSON {
       private:
         using JSONotation = JSONUtils::JSONotation_T<Char_T>;
 
-        static ValueT parseObject(Stream_T &stream, const Char_T *content, SizeT &offset, const SizeT length) {
+        // Every level of nesting is a level of recursion: deeper texts are rejected before they exhaust the stack.
+        static constexpr SizeT32 MaxDepth = 256U;
+
+        static ValueT parseObject(Stream_T &stream, const Char_T *content, SizeT &offset, const SizeT length,
+                                  const SizeT32 depth) {
             using ObjectT = typename ValueT::ObjectT;
 
             StringUtils::TrimLeft(content, offset, length);
@@ -109,7 +113,7 @@ struct JSON {
                             ++offset;
                             StringUtils::TrimLeft(content, offset, length);
                             String<Char_T> key{str, len};
-                            obj->Insert(Memory::Move(key), parseValue(stream, content, offset, length));
+                            obj->Insert(Memory::Move(key), parseValue(stream, content, offset, length, depth));
                             StringUtils::TrimLeft(content, offset, length);
 
                             if (offset < length) {
@@ -140,7 +144,8 @@ struct JSON {
             return value;
         }
 
-        static ValueT parseArray(Stream_T &stream, const Char_T *content, SizeT &offset, const SizeT length) {
+        static ValueT parseArray(Stream_T &stream, const Char_T *content, SizeT &offset, const SizeT length,
+                                 const SizeT32 depth) {
             StringUtils::TrimLeft(content, offset, length);
 
             ValueT value{ValueType::Array};
@@ -149,7 +154,7 @@ struct JSON {
                 Array<ValueT> *arr = value.GetArray();
 
                 while (offset < length) {
-                    *arr += parseValue(stream, content, offset, length);
+                    *arr += parseValue(stream, content, offset, length, depth);
                     StringUtils::TrimLeft(content, offset, length);
 
                     if (offset < length) {
@@ -178,7 +183,8 @@ struct JSON {
             return value;
         }
 
-        static ValueT parseValue(Stream_T &stream, const Char_T *content, SizeT &offset, const SizeT length) {
+        static ValueT parseValue(Stream_T &stream, const Char_T *content, SizeT &offset, const SizeT length,
+                                 const SizeT32 depth) {
             if (offset >= length) {
                 offset = length;
                 return ValueT{};
@@ -186,13 +192,21 @@ struct JSON {
 
             switch (content[offset]) {
                 case JSONotation::SCurlyChar: {
-                    ++offset;
-                    return parseObject(stream, content, offset, length);
+                    if (depth < MaxDepth) {
+                        ++offset;
+                        return parseObject(stream, content, offset, length, (depth + 1U));
+                    }
+
+                    break;
                 }
 
                 case JSONotation::SSquareChar: {
-                    ++offset;
-                    return parseArray(stream, content, offset, length);
+                    if (depth < MaxDepth) {
+                        ++offset;
+                        return parseArray(stream, content, offset, length, (depth + 1U));
+                    }
+
+                    break;
                 }
 
                 case JSONotation::QuoteChar: {
